@@ -400,6 +400,9 @@ def p7(ctx):
                     for y in role_walk(sub.role_of_local(0)):
                         if isinstance(y, tuple) and y[0] == "bin" and y[1] in ("Eq", "Ne"):
                             cands.append((y[2], y[3]))
+                    for e_, cond in C.all_cond_edges(sub):
+                        if cond[0] in ("eq", "ne") and len(cond) == 3:
+                            cands.append((cond[1], cond[2]))
                     for r0, r1 in cands:
                         r0, r1 = strip_role(r0), strip_role(r1)
                         if all(isinstance(r, tuple) and r[0] == "call" and r[1] == "contains" and r[3] for r in (r0, r1)) and strip_role(r0[3][0]) == strip_role(r1[3][0]) and r0[3][1:] != r1[3][1:]:
